@@ -130,6 +130,15 @@ func (g *Group[K, V]) Do(key K, fn func() (V, error)) (v V, err error, shared bo
 	return c.val, c.err, true
 }
 
+// Forget makes the group stop handing the call in flight for key to new
+// callers: a caller that arrives from now on starts a call of its own. Callers
+// that have already joined still get the result of the call in flight.
+func (g *Group[K, V]) Forget(key K) {
+	g.mu.Lock()
+	delete(g.m, key)
+	g.mu.Unlock()
+}
+
 // doCall handles the single call for a key.
 func (g *Group[K, V]) doCall(c *call[V], key K, fn func() (V, error)) {
 	normalReturn := false
